@@ -341,6 +341,8 @@ pub struct NodeSpan {
     pub depth: usize,
     /// true when the AST has a node with exactly this span
     pub has_ast: bool,
+    /// the sub-expression rendered here (only kept when asked for)
+    pub expr: Option<Box<E>>,
 }
 
 #[derive(Clone, Copy, PartialEq, Debug)]
@@ -382,6 +384,8 @@ struct R<'a> {
     parens: Parens,
     rng: Option<&'a mut Rng>,
     depth: usize,
+    keep_exprs: bool,
+    in_pattern: usize,
 }
 
 fn is_wordy(s: &str) -> bool {
@@ -438,6 +442,23 @@ pub fn structured(v: &CelValue) -> E {
             }
         }
         CelValue::Float(f) if f.is_sign_negative() => E::Un('-', 1, Box::new(lit(-*f))),
+        CelValue::TimeStamp(t) => call(
+            "timestamp",
+            vec![lit(t.to_rfc3339_opts(chrono::SecondsFormat::Nanos, true).as_str())],
+        ),
+        CelValue::Duration(d) => {
+            let mut secs = d.num_seconds();
+            let mut nanos = d.subsec_nanos() as i64;
+            if nanos < 0 {
+                secs -= 1;
+                nanos += 1_000_000_000;
+            }
+            call("duration", vec![structured(&secs.into()), lit(nanos)])
+        }
+        CelValue::Type(_) => match crate::vals::spell(v) {
+            Some(s) if s.chars().all(|c| c.is_ascii_alphanumeric() || c == '_') => E::Var(s),
+            _ => call("type", vec![E::List(vec![])]),
+        },
         CelValue::List(l) => E::List(l.iter().map(structured).collect()),
         CelValue::Map(m) => {
             let mut keys: Vec<&String> = m.keys().collect();
@@ -461,10 +482,19 @@ impl<'a> R<'a> {
             first_tok: self.toks.len(),
             last_tok: 0,
             depth: self.depth,
-            has_ast,
+            // spans inside match patterns are outside the property (and outside the AST walk)
+            has_ast: has_ast && self.in_pattern == 0,
+            expr: None,
         });
         self.depth += 1;
         self.spans.len() - 1
+    }
+    fn open_e(&mut self, kind: &'static str, has_ast: bool, e: &E) -> usize {
+        let id = self.open(kind, has_ast);
+        if self.keep_exprs {
+            self.spans[id].expr = Some(Box::new(e.clone()));
+        }
+        id
     }
     fn close(&mut self, id: usize) {
         self.depth -= 1;
@@ -488,7 +518,7 @@ impl<'a> R<'a> {
         let need = e.level() < min;
         let extra = !need && self.want_extra_parens(e);
         if need || extra {
-            let id = self.open("paren", true);
+            let id = self.open_e("paren", true, e);
             self.tok("(");
             self.node(e, false);
             self.tok(")");
@@ -515,38 +545,50 @@ impl<'a> R<'a> {
         match e {
             E::Lit(v) => {
                 let s = vals::spell(v).unwrap_or_else(|| "null".to_string());
-                let id = self.open("lit", true);
+                let id = self.open_e("lit", true, e);
                 // multi-token spellings such as (-5) or timestamp('..') are emitted as one opaque token
                 self.tok(&s);
                 self.close(id);
             }
             E::Raw(s) => {
-                let id = self.open("raw", true);
+                let id = self.open_e("raw", true, e);
                 self.tok(s);
                 self.close(id);
             }
             E::Var(n) => {
-                let id = self.open("ident", true);
+                let id = self.open_e("ident", true, e);
                 self.tok(n);
                 self.close(id);
             }
             E::Paren(a) => {
-                let id = self.open("paren", true);
+                let id = self.open_e("paren", true, e);
                 self.tok("(");
                 self.expr(a, L_TERN, false);
                 self.tok(")");
                 self.close(id);
             }
             E::Un(c, n, a) => {
-                let id = self.open("unary", true);
+                let id = self.open_e("unary", true, e);
+                let first = self.toks.len();
                 for _ in 0..*n {
                     self.tok(&c.to_string());
+                }
+                // the AST keeps the run as a right-nested list: one node per suffix of the run
+                for k in 0..*n {
+                    self.spans.push(NodeSpan {
+                        kind: "runlist",
+                        first_tok: first + k,
+                        last_tok: first + n - 1,
+                        depth: self.depth,
+                        has_ast: self.in_pattern == 0,
+                        expr: None,
+                    });
                 }
                 self.expr(a, L_MEMBER, false);
                 self.close(id);
             }
             E::Bin(op, a, b) => {
-                let id = self.open("binary", true);
+                let id = self.open_e("binary", true, e);
                 let lv = op.level();
                 self.expr(a, lv, false);
                 self.op(op.text());
@@ -554,7 +596,7 @@ impl<'a> R<'a> {
                 self.close(id);
             }
             E::Tern(c, a, b) => {
-                let id = self.open("ternary", true);
+                let id = self.open_e("ternary", true, e);
                 self.expr(c, 1, false);
                 self.op("?");
                 self.expr(a, 1, false);
@@ -563,7 +605,7 @@ impl<'a> R<'a> {
                 self.close(id);
             }
             E::List(v) => {
-                let id = self.open("list", true);
+                let id = self.open_e("list", true, e);
                 self.tok("[");
                 for (i, x) in v.iter().enumerate() {
                     if i > 0 {
@@ -575,7 +617,7 @@ impl<'a> R<'a> {
                 self.close(id);
             }
             E::Map(v) => {
-                let id = self.open("map", true);
+                let id = self.open_e("map", true, e);
                 self.tok("{");
                 for (i, (k, x)) in v.iter().enumerate() {
                     if i > 0 {
@@ -591,7 +633,7 @@ impl<'a> R<'a> {
                 self.close(id);
             }
             E::Index(a, i) => {
-                let id = self.open("member", !chain_inner);
+                let id = self.open_e("member", !chain_inner, e);
                 self.expr(a, L_MEMBER, true);
                 let m = self.open("memberprime", true);
                 self.tok("[");
@@ -601,7 +643,7 @@ impl<'a> R<'a> {
                 self.close(id);
             }
             E::Field(a, f) => {
-                let id = self.open("member", !chain_inner);
+                let id = self.open_e("member", !chain_inner, e);
                 if numeric_atom(a) {
                     let a2 = E::Paren(a.clone());
                     self.expr(&a2, L_MEMBER, true);
@@ -617,7 +659,7 @@ impl<'a> R<'a> {
                 self.close(id);
             }
             E::Call(n, args) => {
-                let id = self.open("member", !chain_inner);
+                let id = self.open_e("member", !chain_inner, e);
                 let p = self.open("ident", true);
                 self.tok(n);
                 self.close(p);
@@ -625,7 +667,7 @@ impl<'a> R<'a> {
                 self.close(id);
             }
             E::Method(r, n, args) => {
-                let id = self.open("member", !chain_inner);
+                let id = self.open_e("member", !chain_inner, e);
                 if numeric_atom(r) {
                     let r2 = E::Paren(r.clone());
                     self.expr(&r2, L_MEMBER, true);
@@ -642,7 +684,7 @@ impl<'a> R<'a> {
                 self.close(id);
             }
             E::Match(s, cases) => {
-                let id = self.open("match", true);
+                let id = self.open_e("match", true, e);
                 self.tok("match");
                 self.expr(s, L_TERN, false);
                 self.tok("{");
@@ -653,6 +695,7 @@ impl<'a> R<'a> {
                     let cs = self.open("case", false);
                     self.tok("case");
                     let ps = self.open("pattern", false);
+                    self.in_pattern += 1;
                     match p {
                         Pat::Any => self.tok("_"),
                         Pat::Type(t) => self.tok(t),
@@ -670,6 +713,7 @@ impl<'a> R<'a> {
                             }
                         }
                     }
+                    self.in_pattern -= 1;
                     self.close(ps);
                     self.tok(":");
                     self.expr(b, L_TERN, false);
@@ -704,7 +748,7 @@ impl<'a> R<'a> {
                     }
                 }
                 s.push('\'');
-                let id = self.open("fstring", true);
+                let id = self.open_e("fstring", true, e);
                 self.tok(&s);
                 self.close(id);
             }
@@ -714,12 +758,18 @@ impl<'a> R<'a> {
 
 /// Render a tree. `rng` is needed for `Ws::Random` / `Parens::Random`.
 pub fn render(e: &E, ws: Ws, parens: Parens, rng: Option<&mut Rng>) -> Rendered {
+    render_opts(e, ws, parens, rng, false)
+}
+
+pub fn render_opts(e: &E, ws: Ws, parens: Parens, rng: Option<&mut Rng>, keep_exprs: bool) -> Rendered {
     let mut r = R {
         toks: Vec::new(),
         spans: Vec::new(),
         parens,
         rng,
         depth: 0,
+        keep_exprs,
+        in_pattern: 0,
     };
     r.expr(e, L_TERN, false);
     let raw = std::mem::take(&mut r.toks);
